@@ -217,6 +217,11 @@ pub struct Th {
     pub ops_done: usize,
     /// completed loads and writes (operations that need the thread's node)
     pub crate_ops_done: usize,
+    /// writes other threads made to the crate's atomics while this thread has been inside its
+    /// current operation
+    pub op_interf: usize,
+    /// consecutive own steps inside the current operation with no other thread able to run
+    pub alone_steps: usize,
     pub pending_tag: u64,
     pub node: usize, // node address this thread is believed to own (0 = none)
     pub acquiring: bool,
@@ -448,6 +453,8 @@ fn new_th(t: usize) -> Th {
         op_paid: false,
         ops_done: 0,
         crate_ops_done: 0,
+        op_interf: 0,
+        alone_steps: 0,
         pending_tag: 0,
         node: 0,
         acquiring: false,
@@ -1516,6 +1523,27 @@ pub fn hook(a: &Access) -> Option<(usize, bool, usize)> {
             return None;
         }
     }
+    // The same bound when the thread is alone for real: every other thread has finished or waits
+    // at a harness-level point (a join, a quiescence point, the finalizer) - nobody is suspended
+    // inside the crate, nobody is parked by a schedule policy. Then nothing can change any more,
+    // and an operation that does not finish within the solo bound waits for something nobody is
+    // going to do (its own guards, say): C09 whatever the schedule.
+    if st.step_limit_solo > 0 && st.th[me].op != OpKind::None && st.th[me].op_step0 != usize::MAX {
+        let n = st.th.len();
+        let alone = st.parked == NONE_T && (1..n).all(|t| t == me || (st.th[t].st != TS::Run && !st.th[t].frozen));
+        if alone {
+            st.th[me].alone_steps += 1;
+            if st.th[me].alone_steps > st.step_limit_solo {
+                let msg = format!("thread t{} did not finish its {:?} operation within {} own steps although every other thread had finished or was waiting outside the crate (last step at {})", me, st.th[me].op, st.th[me].alone_steps, short(a.site));
+                st.fail("O-steps", "C09", msg);
+                wake_all(r);
+                check_abort(st);
+                return None;
+            }
+        } else {
+            st.th[me].alone_steps = 0;
+        }
+    }
     // wait-free bound for loads on a warmed-up thread (C08)
     if st.load_bound > 0 && st.th[me].op == OpKind::Load && st.th[me].op_step0 != usize::MAX {
         let used = st.th[me].steps - st.th[me].op_step0;
@@ -1592,6 +1620,13 @@ pub fn hook(a: &Access) -> Option<(usize, bool, usize)> {
         st.trace.push(s);
     }
     classify(&mut st, me, a, role, node, res);
+    if role != Role::Unknown && role != Role::Litmus && res.1 && !matches!(a.op, Op::Load | Op::Fence | Op::GetMut) {
+        for t in 1..st.th.len() {
+            if t != me && st.th[t].op != OpKind::None {
+                st.th[t].op_interf += 1;
+            }
+        }
+    }
     if let Policy::Stall { victim, park_role, park_nth, wake_role, wake_nth, run } = st.spec.policy.clone() {
         let v = victim as usize + 1;
         match st.stall_phase {
@@ -1742,6 +1777,8 @@ pub fn op_begin(kind: OpKind, cont: usize, warmed: bool) {
         th.op_cont = cont;
         th.op_step0 = if kind == OpKind::Load && !warmed { usize::MAX } else { th.steps };
         th.op_overlapped = false;
+        th.op_interf = 0;
+        th.alone_steps = 0;
         th.op_fallback = false;
         th.op_helped = false;
         th.op_paid = false;
